@@ -160,6 +160,25 @@ theorem C17_s2_def (exp log sqrt : K → K) (pi : K) (d N i ndelta : ℕ) (hi : 
   refine Finset.sum_congr rfl fun k _ => ?_
   ring
 
+/-- the same with the geometry spelled out: distances are norms of the minimum-image displacements
+(`remove_pbc`, model of C02, any cell matrix, mask and `rint`), density is `N / Π boxlength` -/
+theorem C17_s2_full (exp log sqrt : K → K) (pi : K) (rint : K → ℤ) (d N i ndelta : ℕ) (hi : i < N)
+    (rdelta : K) (L : ℕ → K) (H Hinv : ℕ → ℕ → K) (ppp : ℕ → K) (pos : ℕ → ℕ → K)
+    (typ : ℕ → ℕ) (sig : ℕ → ℕ → K) :
+    s2Impl exp log sqrt pi d N i ndelta rdelta (rhoTotal d N L)
+        (fun j => norm sqrt d (disp d rint H Hinv ppp pos i j)) typ sig
+      = s2Spec exp log sqrt pi d N i ndelta rdelta (rhoTotal d N L)
+        (fun j => norm sqrt d (disp d rint H Hinv ppp pos i j)) typ sig :=
+  C17_s2_def exp log sqrt pi d N i ndelta hi rdelta _ _ typ sig
+
+/-- `rhototal`: `np.prod(boxlength)` is the product of the box lengths -/
+theorem C17_s2_rho (d N : ℕ) (L : ℕ → K) : rhoTotal d N L = (N : K) / ∏ x ∈ range d, L x := by
+  unfold rhoTotal
+  congr 1
+  induction d with
+  | zero => simp [foldRange]
+  | succ d ih => rw [foldRange_succ, ih, Finset.prod_range_succ]
+
 /-- the trapezoid rule is exact on affine integrands (telescoping): it is the trapezoid rule -/
 theorem C17_trapz_affine (n : ℕ) (x : ℕ → K) (a b : K) :
     trapz (n + 1) x (fun k => a * x k + b)
